@@ -170,7 +170,9 @@ impl Report {
     pub fn violation(
         &mut self, signature: &str, detail: &str, witness: Value
     ) {
-        let dir = Path::new("/verif/replays");
+        let dir_s = std::env::var("KVH_REPLAY_DIR")
+            .unwrap_or_else(|_| "/verif/replays".to_string());
+        let dir = Path::new(&dir_s);
         let _ = std::fs::create_dir_all(dir);
         let safe: String = signature.chars().map(|c| {
             if c.is_ascii_alphanumeric() || c == '-' || c == '_' { c } else { '_' }
